@@ -15,6 +15,7 @@
 -/
 import Csvq.Lemmas.UnicodeTables
 import Csvq.Model.ParseFloat
+import Csvq.Model.Scanner
 namespace Csvq.C06
 open Csvq Csvq.Uni
 
@@ -141,6 +142,109 @@ theorem isSpace_tied_to_trimSpace (r : Nat) (h : isSpace r = true) (rest : Bytes
   unfold spaceRunes at hm
   simp only [List.mem_cons, List.not_mem_nil, or_false] at hm
   rcases hm with h | h | h | h | h | h | h | h | h | h | h | h | h | h | h | h | h | h | h | h | h | h | h | h | h <;> subst h <;> rfl
+
+/-- … and conversely: whatever that model strips from the head of a text is the encoding of one of the 25 runes -/
+theorem trimSpace_strips_only_spaces (s : Bytes) (k : Nat) (h : PF.spaceLenHead s = k) (hk : 0 < k) :
+    ∃ r, isSpace r = true ∧ s.take k = encodeRune r := by
+  have mem : ∀ r, r ∈ spaceRunes → isSpace r = true := fun r hr => (isSpace_list r).mpr hr
+  cases s with
+  | nil => simp [PF.spaceLenHead] at h; omega
+  | cons b rest =>
+    simp only [PF.spaceLenHead] at h
+    by_cases ha : isAsciiSpace b = true
+    · rw [if_pos ha] at h
+      subst h
+      refine ⟨b, mem b ?_, ?_⟩
+      · unfold isAsciiSpace at ha; simp at ha; unfold spaceRunes; simp; omega
+      · have : b < 128 := by unfold isAsciiSpace at ha; simp at ha; omega
+        simp [encodeRune, this]
+    · rw [if_neg ha] at h
+      split at h
+      · rename_i c _
+        split at h
+        · rename_i hc
+          subst h
+          simp at hc
+          rcases hc with rfl | rfl
+          · exact ⟨133, mem _ (by decide), by rfl⟩
+          · exact ⟨160, mem _ (by decide), by rfl⟩
+        · omega
+      · subst h; exact ⟨5760, mem _ (by decide), by rfl⟩
+      · rename_i c _
+        split at h
+        · rename_i hc
+          subst h
+          simp at hc
+          refine ⟨8192 + (c - 128), mem _ ?_, ?_⟩
+          · unfold spaceRunes; simp; omega
+          · have e1 : ¬ (8192 + (c - 128) < 128) := by omega
+            have e2 : ¬ (8192 + (c - 128) < 2048) := by omega
+            have e3 : 8192 + (c - 128) < 65536 := by omega
+            simp only [encodeRune, Gen.Uni.maxRune, e1, e2, e3, if_false, if_true, List.take_succ_cons, List.take_zero]
+            rw [if_neg (by omega)]
+            have q1 : (8192 + (c - 128)) / 4096 = 2 := by omega
+            have q2 : (8192 + (c - 128)) / 64 % 64 = 0 := by omega
+            have q3 : (8192 + (c - 128)) % 64 = c - 128 := by omega
+            have q4 : 128 + (c - 128) = c := by omega
+            rw [q1, q2, q3, q4]
+        · omega
+      · subst h; exact ⟨8287, mem _ (by decide), by rfl⟩
+      · subst h; exact ⟨12288, mem _ (by decide), by rfl⟩
+      · omega
+
+/-- the scanner's white space (Model/Scanner.lean `isSpace`, a hand-written list) is unicode.IsSpace of the tables -/
+theorem scanner_isSpace_is_unicode (c : Char) : Scan.isSpace c = Uni.isSpace c.toNat := by
+  have h : Scan.isSpace c = true ↔ c.toNat ∈ spaceRunes := by
+    unfold Scan.isSpace spaceRunes
+    simp only [Bool.or_eq_true, Bool.and_eq_true, decide_eq_true_eq, List.mem_cons, List.not_mem_nil, or_false]
+    omega
+  cases h1 : Scan.isSpace c <;> cases h2 : Uni.isSpace c.toNat <;> try rfl
+  · exact absurd (h.mpr ((isSpace_list _).mp h2)) (by rw [h1]; simp)
+  · exact absurd ((isSpace_list _).mpr (h.mp h1)) (by rw [h2]; simp)
+
+/-! ## UTF-8 written and read; ToUpper on byte strings -/
+
+/-- written, then read: scalar values come back as they are … -/
+theorem utf8_roundtrip (l : List Nat) (h : ∀ r ∈ l, ValidScalar r) : decodeRunes (encodeRunes l) = l :=
+  decodeRunes_encodeRunes_valid l h
+
+/-- … and a surrogate or a value above MaxRune comes back as U+FFFD (utf8.AppendRune writes U+FFFD for it) -/
+theorem utf8_roundtrip_sanitizes (l : List Nat) : decodeRunes (encodeRunes l) = l.map sanitize :=
+  decodeRunes_encodeRunes l
+
+/-- what is read from any byte string is a list of scalar values -/
+theorem decoded_runes_are_scalars (s : Bytes) : ∀ r ∈ decodeRunes s, ValidScalar r := decodeRunes_valid s
+
+/-- **strings.ToUpper is idempotent on EVERY byte string** — so is the text of the string rung and of the GROUP BY key -/
+theorem strToUpper_idempotent (s : Bytes) : strToUpper (strToUpper s) = strToUpper s := strToUpper_idem s
+
+/-! ## name resolution against value equality -/
+
+/-- **Header names match (strings.EqualFold — Header.FieldIndex, table and cursor names) exactly when the texts are
+    equal on the string rung of `=` (equal strings.ToUpper)** — for all byte strings a, b (already trimmed; invalid
+    bytes count as U+FFFD on both sides) in which none of these runes occurs: K k K(elvin sign), ß ẞ,
+    Å å Å(ngström sign), Ω ω Ω(ohm sign), Θ θ ϑ ϴ (`foldUpperExc`), and ı (U+0131). -/
+theorem name_resolution_vs_value_equality (a b : Bytes)
+    (hx : ∀ r ∈ decodeRunes a ++ decodeRunes b, r ∉ foldUpperExc ∧ r ≠ 305) :
+    equalFold a b = true ↔ strToUpper a = strToUpper b := by
+  constructor
+  · intro h
+    exact equalFold_strToUpper_partial a b h (fun r hr => (hx r (List.mem_append_left _ hr)).1)
+  · intro h
+    exact runesFoldEq_of_upper_eq _ _ (upper_runes_of_strToUpper_eq a b h)
+      (fun r hr => (hx r (List.mem_append_left _ hr)).2) (fun r hr => (hx r (List.mem_append_right _ hr)).2)
+
+/-- outside that condition, one way: a column named with the Kelvin sign (E2 84 AA) is found under the name `k`
+    and under `K`, while as VALUES the Kelvin sign equals neither (its upper case is itself) -/
+theorem name_resolution_counterexample_kelvin :
+    equalFold [0xE2, 0x84, 0xAA] [107] = true ∧ equalFold [0xE2, 0x84, 0xAA] [75] = true
+      ∧ strToUpper [0xE2, 0x84, 0xAA] ≠ strToUpper [107] ∧ strToUpper [0xE2, 0x84, 0xAA] ≠ strToUpper [75] := by decide +kernel
+
+/-- … and the other way: a column named ı (C4 B1) is found neither as `i` nor as `I`, while the VALUE 'ı' equals
+    'i' and 'I' (its upper case is I) -/
+theorem name_resolution_counterexample_dotless_i :
+    equalFold [0xC4, 0xB1] [105] = false ∧ equalFold [0xC4, 0xB1] [73] = false
+      ∧ strToUpper [0xC4, 0xB1] = strToUpper [105] ∧ strToUpper [0xC4, 0xB1] = strToUpper [73] := by decide +kernel
 
 /-! ## non-vacuity: the table facts on single runes, concrete texts -/
 
